@@ -12,12 +12,13 @@ states, so they neither consume call indices nor touch caches of the system unde
 
 from __future__ import annotations
 
+import copy
 import math
 
 import numpy as np
 
 from models import hooks, zoo
-from simkit.core import violation
+from simkit.core import HarnessError, violation
 
 VALUE_KINDS = ("nan", "+inf", "-inf", "nan_entry", "inf_entry")
 EXC_KINDS = ("ValueError", "np_LinAlgError", "mici_LinAlgError")
@@ -148,6 +149,8 @@ class MonitoredFixedPointSolver:
             ctx.count("fp_convergence_errors")
             raise
         except BaseException as e:
+            if isinstance(e, HarnessError):
+                raise
             ctx.violations.append(
                 violation("solver-foreign-exception", f"solver-foreign-exception:{self.name}:{type(e).__name__}",
                           f"fixed point solver {self.name} let {type(e).__name__} escape: {e}")
@@ -178,6 +181,41 @@ class MonitoredFixedPointSolver:
 class MonitoredProjectionSolver:
     def __init__(self, real, ctx, name):
         self.real, self.ctx, self.name = real, ctx, name
+        self._fd_cache = {}
+
+    def _flow_derivative(self, system, q, dt):
+        """(d pos_out / d mom_in, d mom_out / d mom_in) of system.h2_flow(., dt) at position q, by differences of
+        the real flow (exact for the affine flows of mici's constrained systems; affinity is probed once per dt
+        and the matrices are re-measured at every call when the probe fails)."""
+        from mici.states import ChainState
+
+        def flow(pos, mom):
+            st = ChainState(pos=np.array(pos, dtype=float, copy=True), mom=np.array(mom, dtype=float, copy=True), dir=1)
+            system.h2_flow(st, dt)
+            return np.array(st.pos, dtype=float), np.array(st.mom, dtype=float)
+
+        def measure(pos, h=1.0):
+            d = np.size(pos)
+            p0, m0 = flow(pos, np.zeros(d))
+            A, B = np.zeros((d, d)), np.zeros((d, d))
+            for i in range(d):
+                e = np.zeros(d)
+                e[i] = h
+                p1, m1 = flow(pos, e)
+                A[:, i], B[:, i] = (p1 - p0) / h, (m1 - m0) / h
+            return A, B
+
+        key = (id(system), float(dt), np.size(q))
+        hit = self._fd_cache.get(key)
+        if hit is not None and hit[0]:
+            return hit[1], hit[2]
+        A, B = measure(q)
+        if hit is None:
+            A2, B2 = measure(np.asarray(q) * 0.5 + 0.37, h=3.0)
+            affine = bool(np.allclose(A, A2, rtol=1e-9, atol=1e-12) and np.allclose(B, B2, rtol=1e-9, atol=1e-12))
+            self._fd_cache[key] = (affine, A, B)
+            self.ctx.count("flow_derivative_probes")
+        return A, B
 
     def __call__(self, state, state_prev, time_step, system, **kwargs):
         import mici
@@ -199,6 +237,8 @@ class MonitoredProjectionSolver:
             ctx.count("proj_convergence_errors")
             raise
         except BaseException as e:
+            if isinstance(e, HarnessError):
+                raise
             ctx.violations.append(
                 violation("solver-foreign-exception", f"solver-foreign-exception:{self.name}:{type(e).__name__}",
                           f"projection solver {self.name} let {type(e).__name__} escape: {e}")
@@ -232,7 +272,9 @@ class MonitoredProjectionSolver:
                 try:
                     prevs = ChainState(pos=prev_pos, mom=np.zeros_like(prev_pos), dir=1)
                     Jp = np.asarray(system.jacob_constr(prevs), dtype=float)
-                    A, B = system.dh2_flow_dmom(prevs, abs(time_step))
+                    # derivative of the h2 flow w.r.t. the initial momentum, measured on the flow itself (not
+                    # taken from system.dh2_flow_dmom, which is the code under test)
+                    A, B = self._flow_derivative(system, prev_pos, time_step)
                     AJ = np.asarray(A @ Jp.T)
                     BJ = np.asarray(B @ Jp.T)
                     dpos = pos0 - np.asarray(state.pos)
@@ -240,7 +282,7 @@ class MonitoredProjectionSolver:
                     lam, *_ = np.linalg.lstsq(AJ, dpos, rcond=None)
                     fit = float(np.max(np.abs(AJ @ lam - dpos)))
                     scale = 1e-7 * (1.0 + float(np.max(np.abs(dpos)))) + 1e-12 + 1e-12 * float(np.max(np.abs(pos0)))
-                    momfit = float(np.max(np.abs(np.sign(time_step) * (BJ @ lam) - dmom)))
+                    momfit = float(np.max(np.abs(BJ @ lam - dmom)))
                     mscale = (1e-7 * (1.0 + float(np.max(np.abs(dmom)))) + 1e-12 * float(np.max(np.abs(mom0)))) * max(1.0, float(np.linalg.cond(AJ))) + 1e-12
                     ctx.count("lagrange_checks")
                     if fit > scale or momfit > mscale:
@@ -266,8 +308,21 @@ def sensitivity(integ, out, z_rev, n=1):
     pert = out.copy()
     pert.dir = -out.dir
     d = np.size(out.pos)
-    pert.pos = np.asarray(out.pos) + delta[:d].reshape(np.shape(out.pos))
-    pert.mom = np.asarray(out.mom) + delta[d:].reshape(np.shape(out.mom))
+    system = getattr(integ, "system", None)
+    if system is not None and hasattr(system, "constr"):
+        # constrained systems: stay on the manifold and in the cotangent space - perturb the momentum only,
+        # along its projection onto the cotangent space at the unchanged position
+        try:
+            dm = np.asarray(system.project_onto_cotangent_space(delta[d:].reshape(np.shape(out.mom)), out.copy()), dtype=float)
+        except (mici.errors.Error, ValueError, np.linalg.LinAlgError):
+            return None
+        if not np.all(np.isfinite(dm)) or float(np.max(np.abs(dm))) < 1e-3 * float(np.max(np.abs(delta[d:]))):
+            return None
+        delta = np.concatenate([np.zeros(d), np.ravel(dm)])
+        pert.mom = np.asarray(out.mom) + dm
+    else:
+        pert.pos = np.asarray(out.pos) + delta[:d].reshape(np.shape(out.pos))
+        pert.mom = np.asarray(out.mom) + delta[d:].reshape(np.shape(out.mom))
     try:
         cur = pert
         for _ in range(n):
@@ -281,10 +336,11 @@ def sensitivity(integ, out, z_rev, n=1):
 
 
 class MonitoredIntegrator:
-    def __init__(self, real, ctx, *, system, reversal=None, constrained=False, constraint_tol=1e-9):
+    def __init__(self, real, ctx, *, system, reversal=None, constrained=False, constraint_tol=1e-9, center=None):
         d = self.__dict__
         d["_real"], d["ctx"], d["system"] = real, ctx, system
         d["reversal"] = reversal  # None or {"tol":..., "explicit": bool}
+        d["center"] = None if center is None else np.array(center, dtype=float)  # translation of the model (zoo Quartic.center)
         d["constrained"] = constrained
         d["constrained_system"] = hasattr(system, "constr")
         d["constraint_tol"] = constraint_tol
@@ -317,6 +373,8 @@ class MonitoredIntegrator:
                 ctx.violations.append(violation("input-modified", "input-modified:on-error", f"integrator step raised {type(e).__name__} and modified its input state"))
             raise
         except BaseException as e:
+            if isinstance(e, HarnessError):
+                raise
             self.errors.append("foreign:" + type(e).__name__)
             if bytes_of(state) != before and not isinstance(e, KeyboardInterrupt):
                 ctx.violations.append(violation("input-modified", "input-modified:on-error", f"integrator step raised {type(e).__name__} and modified its input state"))
@@ -390,7 +448,8 @@ class MonitoredIntegrator:
         ctx = self.ctx
         z_in = np.concatenate([np.ravel(inp.pos), np.ravel(inp.mom)])
         z_out = np.concatenate([np.ravel(out.pos), np.ravel(out.mom)])
-        if not (np.all(np.isfinite(z_in)) and np.all(np.isfinite(z_out))) or max(np.abs(z_in).max(), np.abs(z_out).max()) > 1e8:
+        cz = translation_vector(self.center, z_in.size)
+        if not (np.all(np.isfinite(z_in)) and np.all(np.isfinite(z_out))) or max(np.abs(z_in - cz).max(), np.abs(z_out - cz).max()) > 1e8:
             ctx.count("reversal_out_of_range")
             return
         back = out.copy()
@@ -407,8 +466,12 @@ class MonitoredIntegrator:
         z_rev = np.concatenate([np.ravel(rev.pos), np.ravel(rev.mom)])
         err = float(np.max(np.abs(z_rev - z_in)))
         ctx.count("reversal_checks")
-        lim = self.reversal["tol"] * (1.0 + float(max(np.max(np.abs(z_in)), np.max(np.abs(z_out)))))
-        if not (err <= lim) and not self.constrained_system:
+        # solver tolerances are absolute, rounding is relative to the largest coordinate: a translated model
+        # (centre c) gets tol * (1 + |z - c|) + rounding allowance for |c|
+        lim = self.reversal["tol"] * (1.0 + float(max(np.max(np.abs(z_in - cz)), np.max(np.abs(z_out - cz))))) + 1e-11 * float(np.max(np.abs(cz)))
+        if self.center is not None:
+            ctx.count("reversal_checks_translated")
+        if not (err <= lim):
             # rounding is amplified by the local expansion of the (reverse) map outside the
             # stability region: estimate it with one perturbed reverse step
             L = sensitivity(self._real, out, z_rev)
@@ -421,6 +484,13 @@ class MonitoredIntegrator:
         if not (err <= lim):
             ctx.violations.append(violation("not-reversible", f"not-reversible:{type(self._real).__name__}",
                                             f"{type(self._real).__name__}: step, flip, step returns to a state {err:.3e} away from the start (limit {lim:.1e})"))
+
+
+def translation_vector(center, size):
+    cz = np.zeros(size)
+    if center is not None:
+        cz[: len(center)] = center
+    return cz
 
 
 # --------------------------------------------------------------------------------------
@@ -446,7 +516,8 @@ def build(scn, ctx):
         rct = ispec.get("reverse_check_tol", 2e-8)
         rev = {"tol": 1e-10 if explicit else 100 * rct}
     ctol = ispec.get("solver_kwargs", {}).get("constraint_tol", 1e-9)
-    mon = MonitoredIntegrator(integ, ctx, system=system, reversal=rev, constrained=constrained and scn.get("check_manifold", False), constraint_tol=ctol)
+    mon = MonitoredIntegrator(integ, ctx, system=system, reversal=rev, constrained=constrained and scn.get("check_manifold", False), constraint_tol=ctol,
+                              center=scn["system"].get("target", {}).get("center"))
     ts = scn["transition"]
     T = mici.transitions
     if ts["type"] == "static":
@@ -474,7 +545,7 @@ def run_chain(scn, *, faults=(), region=None, solver_fail_at=None, n_iter=None, 
 
     ctx = Ctx(faults, region, solver_fail_at)
     hooks.install(ctx.handler)
-    outcome = {"escaped": None, "iters": 0, "accepted_moves": 0, "flags": {}, "clean_success_after_faults": None}
+    outcome = {"escaped": None, "iters": 0, "accepted_moves": 0, "flags": {}, "clean_success_after_faults": None, "poisoned": None}
     try:
         system, mon, trans, momt = build(scn, ctx)
         rng = np.random.default_rng(scn["chain_seed"])
@@ -488,7 +559,15 @@ def run_chain(scn, *, faults=(), region=None, solver_fail_at=None, n_iter=None, 
         step_sizes = scn.get("step_sizes")
         last_fault_call = max([f["at"] for f in faults if "at" in f], default=0)
         total = n_iter + extra_clean_iters
+        clean_start, clean_seq = None, []
         for it in range(total):
+            if it == n_iter and extra_clean_iters:
+                # faults stop here; remember the chain state's variables and the generator so that the same clean
+                # iterations can be repeated from a state object that carries no cache (see continuation below)
+                ctx.faults, ctx.solver_fail_at = {}, set()
+                if state.mom is not None:
+                    clean_start = (np.array(state.pos, copy=True), np.array(state.mom, copy=True), state.dir,
+                                   copy.deepcopy(rng.bit_generator.state), len(ctx.violations))
             if step_sizes:
                 mon.step_size = step_sizes[it % len(step_sizes)]
             # momentum transition (its own failures are outside C12's statement; contained => fine)
@@ -509,6 +588,8 @@ def run_chain(scn, *, faults=(), region=None, solver_fail_at=None, n_iter=None, 
                 new_state, stats = trans.sample(state, rng)
             except BaseException as e:  # noqa: BLE001
                 ctx.in_transition = False
+                if isinstance(e, HarnessError):
+                    raise  # the batch runner's budget, not an exception of the code under test
                 import traceback
 
                 tb = traceback.extract_tb(e.__traceback__)
@@ -516,8 +597,14 @@ def run_chain(scn, *, faults=(), region=None, solver_fail_at=None, n_iter=None, 
                 site = "?"
                 if frames:
                     f = frames[-1]
-                    caller = next((g for g in reversed(frames[:-1]) if g.filename.endswith(("systems.py", "solvers.py", "integrators.py"))), None)
-                    site = f"{f.filename.rsplit('/', 1)[-1]}:{f.name}" + (f"<-{caller.name}" if caller else "")
+                    # innermost system method and innermost integrator/solver (else transition) method on the way
+                    # down: findings are identified by this call path, so a new path is a new violation
+                    inner = frames[:-1]
+                    sysm = next((g for g in reversed(inner) if g.filename.endswith("systems.py")), None)
+                    drv = next((g for g in reversed(inner) if g.filename.endswith(("integrators.py", "solvers.py"))), None)
+                    if drv is None:
+                        drv = next((g for g in reversed(inner) if g.filename.endswith("transitions.py")), None)
+                    site = f"{f.filename.rsplit('/', 1)[-1]}:{f.name}" + (f"<-{sysm.name}" if sysm else "") + (f"<-{drv.name}" if drv else "")
                 outcome["escaped"] = (type(e).__module__.split(".")[0] + "." + type(e).__name__, site, str(e)[:200])
                 break
             finally:
@@ -534,12 +621,45 @@ def run_chain(scn, *, faults=(), region=None, solver_fail_at=None, n_iter=None, 
             if not states_equal(before, new_state):
                 outcome["accepted_moves"] += 1
             if it >= n_iter:  # clean iterations after the faults stopped
+                clean_seq.append((np.array(new_state.pos, copy=True), np.array(new_state.mom, copy=True),
+                                  tuple(bool(stats.get(k)) for k in ("convergence_error", "non_reversible_step", "diverging"))))
                 ok = not any(stats.get(k) for k in ("convergence_error", "non_reversible_step", "diverging")) and stats["n_step"] > 0
                 if ok:
                     outcome["clean_success_after_faults"] = True
                 elif outcome["clean_success_after_faults"] is None:
                     outcome["clean_success_after_faults"] = False
             state = new_state
+        if clean_start is not None and not outcome["escaped"] and len(clean_seq) == extra_clean_iters:
+            # the same clean iterations from a fresh state object holding the same variables: a chain state that
+            # faults left in a valid condition behaves exactly like it (nothing poisoned survives in its cache)
+            pos0, mom0, dir0, rng_state, n_viol = clean_start
+            rng2 = np.random.default_rng(0)
+            rng2.bit_generator.state = rng_state
+            st2 = ChainState(pos=pos0, mom=mom0, dir=dir0)
+            seq2, failed = [], None
+            for it in range(n_iter, total):
+                if step_sizes:
+                    mon.step_size = step_sizes[it % len(step_sizes)]
+                try:
+                    st2, _ = momt.sample(st2, rng2)
+                    mon.begin_transition()
+                    st2, stats2 = trans.sample(st2, rng2)
+                except BaseException as e:  # noqa: BLE001
+                    if isinstance(e, HarnessError):
+                        raise
+                    failed = type(e).__name__
+                    break
+                seq2.append((np.array(st2.pos, copy=True), np.array(st2.mom, copy=True),
+                             tuple(bool(stats2.get(k)) for k in ("convergence_error", "non_reversible_step", "diverging"))))
+            ctx.count("clean_continuations_compared")
+            if failed is not None:
+                outcome["poisoned"] = f"the fresh-state continuation raised {failed} while the chain's own continuation did not"
+            else:
+                for k, (a, b) in enumerate(zip(clean_seq, seq2)):
+                    if not (np.array_equal(a[0], b[0], equal_nan=True) and np.array_equal(a[1], b[1], equal_nan=True) and a[2] == b[2]):
+                        outcome["poisoned"] = (f"clean iteration {k + 1} after the faults: the chain's own state object gives pos {a[0].tolist()} flags {a[2]}, "
+                                               f"a fresh state with the same variables gives pos {b[0].tolist()} flags {b[2]}")
+                        break
     finally:
         hooks.clear()
     return ctx, outcome
